@@ -70,6 +70,15 @@ PROPS = {
                         "(not proved) TimerQueue::{add,next,bump}, TimerSlot::{add,remove,wake_all}, TimerSlotEntryHandle::{drop,reset,resolve}, Sleep::poll/reset, Timeout::poll, Interval::poll_tick, ModuleRef::activate/deactivate: RefCell behind &self / Arc (no sound Verus view without rewriting them into a model); Kani: thread_local TIME_CTX makes kani-compiler panic (intrinsics.rs:243), and with the queue driven directly (driver.rs included under a host module) CBMC gave no verdict in 25 min for two timers",
                         "timers of shut-down / restarted modules (C09), tokio's scheduling of woken tasks (C06)"],
     },
+    "C08": {
+        "bundles": ["gatewalk"],
+        "fns": {"gatewalk": ["MessageExitingConnection::handle_with_sink"]},
+        "assumptions": ["the gate graph (Arc<Gate> + Mutex<Connections>) enters through ONE assumed contract: Connection::next_hop follows an abstract finite route (the hops that remain after a connection); that connect / next_hop really build and follow such routes - symmetric, at most two peers, mirror image from the other end - is only covered by the bounded replay driver",
+                        "shims: opaque GateRef / ModuleRef / ChannelRef / Connection with accessor contracts (rule R19 turns the field access `.endpoint` into the accessor), Message reduced to header.last_gate + content, EventSink as a trait whose add appends to an abstract event list, ChannelRef::send_message recorded as 'took the message' (what the channel then does is C07), tracing statements dropped (R18)",
+                        "SimTime::now() is an uninterpreted value (the delivery is scheduled for 'now')"],
+        "not_covered": ["BOUNDED only (replay/gate_driver on the real crate, never counted as proved): Gate::connect / Connection::next_hop / path_iter - chains of 1..6 hops connected in any order and orientation enumerate g0..gk forward and as the exact mirror image backward, a connected pair can be connected again without effect, a gate with two peers refuses a third; end to end: a message sent on either endpoint gate is delivered exactly once to the owner of the far end at send time + sum over the hops of (latency + size*8/bitrate), with sender id, receiver id and final gate in the header",
+                        "(not proved) Gate::connect, Connection::next_hop, PathIter, send / send_in / buf_send_at, HandleMessageEvent::handle (receiver id stamp), messages towards inactive modules (C09)"],
+    },
     "C19": {
         "bundles": ["topology"],
         "fns": {"topology": ["Topology::bidirectional", "Topology::connected", "Topology::connected::visit"]},
